@@ -21,7 +21,8 @@ UNITS = {
     'ingest': {'template': 'units/ingest/unit.rs', 'serves': ['C12', 'C13', 'C16'], 'min_verified': 10},
     'sampler': {'template': 'units/sampler/unit.rs', 'serves': ['C17'], 'min_verified': 36},
     'engine': {'template': 'units/engine/unit.rs', 'serves': ['C20'], 'min_verified': 18},
-    'trie': {'template': 'units/trie/unit.rs', 'serves': ['C20'], 'min_verified': 68},
+    'trie': {'template': 'units/trie/unit.rs', 'serves': ['C20'], 'min_verified': 95},
+    'a2a': {'template': 'units/a2a/unit.rs', 'serves': ['C09', 'C10'], 'min_verified': 16},
     'lthash': {'template': 'units/lthash/unit.rs', 'serves': ['C20'], 'min_verified': 19},
     'vshreds': {'template': 'units/vshreds/unit.rs', 'serves': ['C11', 'C10'], 'min_verified': 10},
     'slot_state': {'template': 'units/slot_state/unit.rs', 'serves': ['C03', 'C04', 'C06'], 'min_verified': 93},
@@ -55,6 +56,8 @@ KANI = {
          'target': 'src/execution/commitment.rs SubAssign<&LtHash>: all 1024 lanes symbolic, lane-wise wrapping difference'},
         {'name': 'kani_lthash_identity_is_zero', 'kind': 'complete', 'timeout': 300,
          'target': 'src/execution/commitment.rs LtHash::identity: every lane zero'},
+        {'name': 'kani_chunk_order_is_key_order', 'kind': 'complete', 'timeout': 600,
+         'target': 'src/execution/state.rs chunk_at vs `<` on [u8; 32]: keys agreeing on the chunks before depth d compare like their chunks at d (axiom_chunk_order of unit trie)'},
         {'name': 'kani_popcount_below_is_rank', 'kind': 'complete', 'timeout': 300,
          'target': 'u32::count_ones on `bitmap & ((1 << chunk) - 1)`, every bitmap and chunk < 32: the number of set bits below the chunk (axiom_popcount_is_rank of unit trie)'},
     ],
